@@ -125,6 +125,10 @@ func (q *Quadtree) Remove(p orb.Pointer, eq FilterFunc) bool {
 		}
 	}
 
+	if q.root == nil {
+		return false
+	}
+
 	b := q.bound
 	v := &findVisitor{
 		point:          p.Point(),
